@@ -496,6 +496,7 @@ def _helper_says_outer(prog, helper: core.FuncInfo, kind: str):
 
 def kind_guards(ctx) -> None:
     prog = ctx.prog
+    tenv_ = types.TypeEnv(prog)
     resolver = calls.Resolver(prog)
     visitor = prog.cls(f'{PARSER}:Visitor')
     n = 0
@@ -537,6 +538,26 @@ def kind_guards(ctx) -> None:
                                 callee = prog.func(f'{found[0].ref}.{hc.func.attr}')
                         if callee is None:
                             continue
+                        # the helper must be asked about something that *can* be a join: applied to a value whose static type
+                        # is unrelated to every class the helper discriminates on (a Query is never a Join/Reference), it is a
+                        # constant and the guard is vacuous
+                        if hc.args:
+                            try:
+                                at = types.strip_opt(tenv_.expr_type(fn, hc.args[0], tenv_.locals(fn)))
+                            except Exception:
+                                at = None
+                            ac = prog.classes.get(at[1]) if at and at[0] == 'cls' else None
+                            hparam = callee.param_names[1] if len(callee.param_names) > 1 else None
+                            tested = []
+                            for x in ast.walk(callee.node):
+                                if isinstance(x, ast.Call) and core.call_name(x) == 'isinstance' and len(x.args) == 2 and core.src(x.args[0]) == hparam:
+                                    for t_ in (x.args[1].elts if isinstance(x.args[1], ast.Tuple) else [x.args[1]]):
+                                        r_ = prog.resolve_expr(callee, t_)
+                                        if isinstance(r_, core.ClassInfo):
+                                            tested.append(r_)
+                            if ac is not None and tested:
+                                related = any(ac is k or ac.is_subclass_of(k) or k.is_subclass_of(ac) for k in tested)
+                                ctx.check(related, 'C14.kind-guard', fn, f'`{core.src(hc)}` asks about a {ac.name}, which can never be one of {[k.name for k in tested]}: the outer-join guard is vacuous (it must inspect the queried source)', hc, key=f'{mname}:guard-subject')
                         verdicts = {}
                         for kind in ('LEFT', 'INNER'):
                             verdicts[kind] = _helper_says_outer(prog, callee, kind)
